@@ -217,6 +217,16 @@ def mem_stage(tier, seed, key, P):
     jobs += pb_jobs(kmax=24 if tier == "quick" else 30)
     n = 1200 if tier == "quick" else 12000
     jobs += gen.gen(["rw", "cas", "guards", "multi", "churn", "cache", "drop", "mixed", "aba", "wrap"], n, seed * 31 + 5)
+    # the lock-based strategy, single-threaded (its lock is invisible to the happens-before monitor): only to get its sites
+    # into the ordering table (spec/WeakRw.tla is fed from it)
+    def _n():
+        return {"new": {"pd": False}}
+    rwp = {"threads": [[{"op": "new", "c": 0, "v": _n()}],
+                       [{"op": "wait", "t": 0}, {"op": "load", "c": 0, "g": 1}, {"op": "deref_g", "g": 1}, {"op": "drop_g", "g": 1},
+                        {"op": "store", "c": 0, "v": _n()}, {"op": "load_full", "c": 0, "h": 1},
+                        {"op": "cas", "c": 0, "cur": {"h": 1}, "v": _n(), "g": 2}, {"op": "drop_g", "g": 2}, {"op": "drop_h", "h": 1}]],
+           "strategy": "rwlock", "reuse": "never"}
+    jobs.append({"fam": "rwlock-sites", "prog": rwp, "sched": {"kind": "random", "seed": 1}})
     for i, j in enumerate(jobs):
         j["id"] = i
     t0 = time.time()
@@ -704,11 +714,19 @@ def weak_constants(table):
     env = sel("helping.rs", "env", "load") + sel("helping.rs", "env", "store") + sel("helping.rs", "space", "store")
     hl = sel("helping.rs", "ctrl", "load") + sel("helping.rs", "space", "load")
     if len(ctrl) < 3 or not hs or not env or not hl:
-        return (fast, None, _node_constants(sel)), "helping sites not all observed (%d control accesses, %d slot swaps, %d envelope accesses, %d helper loads)" % (len(ctrl), len(hs), len(env), len(hl))
+        return (fast, None, _node_constants(sel), _rw_constants(sel, fast)), "helping sites not all observed (%d control accesses, %d slot swaps, %d envelope accesses, %d helper loads)" % (len(ctrl), len(hs), len(env), len(hl))
     cords = [r[4] for r in ctrl] + [r[5] for r in ctrl if r[3] == "cas"]
     helpc = {"OrdCand": _meet([stl[2][4]]), "OrdCtrl": _meet(cords), "OrdHslot": _meet([r[4] for r in hs]), "OrdEnv": _meet([r[4] for r in env]),
              "OrdStSwap": fast["OrdStSwap"], "OrdPayOk": pay_ok, "OrdPayFail": pay_fail, "OrdPayOkW": payw_ok, "OrdPayFailW": payw_fail, "OrdHelpLoad": _meet([r[4] for r in hl])}
-    return (fast, helpc, _node_constants(sel)), ""
+    return (fast, helpc, _node_constants(sel), _rw_constants(sel, fast)), ""
+
+
+def _rw_constants(sel, fast):
+    """constants of spec/WeakRw.tla (the lock-based strategy): the pointer load under the read lock, the pointer swap of lib.rs"""
+    ld = sel("rw_lock.rs", "st", "load")
+    if not ld:
+        return None
+    return {"OrdStSwap": fast["OrdStSwap"], "OrdRwLoad": _meet([r[4] for r in ld])}
 
 
 def _node_constants(sel):
@@ -741,7 +759,7 @@ def weak_stage(tier, seed, key, P):
     states = trans = 0
     runs = []
     if consts is not None:
-        for spec, cs, nsw in (("WeakFast.tla", consts[0], 3), ("WeakHelp.tla", consts[1], 2), ("WeakNode.tla", consts[2] if len(consts) > 2 else None, 0)):
+        for spec, cs, nsw in (("WeakFast.tla", consts[0], 3), ("WeakHelp.tla", consts[1], 2), ("WeakNode.tla", consts[2] if len(consts) > 2 else None, 0), ("WeakRw.tla", consts[3] if len(consts) > 3 else None, 0)):
             if cs is None:
                 continue
             # two runs per model: a use after free found first must not hide a race (different properties), and vice versa
